@@ -73,6 +73,11 @@ def mode_lwl(p):
             m.variance_thresholds = 1e-12
             m.variances = rs.uniform(0.5, 2.0, size=(C, D)) * float(rs.choice([1e-6, 1e4]))
             x = m.means[rs.randint(0, C, size=N)] + rs.normal(size=(N, D)) * np.sqrt(m.variances[0])
+        one_ = np.asarray(m.log_weighted_likelihood(x[0]))          # ONE sample given as a 1-d vector: one value per component
+        exp1 = ref_lwl(x[:1], m.weights, m.means, m.variances)
+        if one_.shape != (C, 1) or not close(one_, exp1):
+            return {"input": {"C": C, "D": D, "x": x[0].tolist()}, "observed": one_.tolist(), "expected": exp1.tolist(),
+                    "what": "log_weighted_likelihood of one sample (1-d vector) is not the column of its per-component values, shape (C, 1)"}
         got = m.log_weighted_likelihood(x)
         exp = ref_lwl(x, m.weights, m.means, m.variances)
         if not close(got, exp):
@@ -142,6 +147,13 @@ def mode_estep(p):
         C, D, N = rs.randint(1, 4), rs.randint(1, 4), rs.randint(1, 6)
         m = mk(C, D, seed)
         x = rs.normal(size=(N, D)) * 2 + 3
+        if seed % 4 == 2 and C >= 2:
+            # a non-default count threshold and a component that receives a small but non-zero share of the data
+            m = mk(C, D, seed, mean_var_update_threshold=1e-3)
+            mm = m.means.copy()
+            mm[-1] = mm[0] + 4.0 * np.sqrt(m.variances[0]) * rs.choice([-1.0, 1.0], size=D)
+            m.means = mm
+            x = m.means[0] + rs.normal(size=(N, D)) * 0.3 * np.sqrt(m.variances[0])
         # every fourth sample set is stored in a narrow integer dtype (uint8 pixels / int16 audio)
         if seed % 4 == 1:
             x = rs.randint(0, 256, size=(N, D)).astype(np.uint8)
@@ -242,6 +254,11 @@ def mode_ml_mstep(p):
                 m.variance_thresholds = 1e-12
                 m.variances = m.variances * (np.array([1e-3, 1.0, 1e-2])[:D] ** 2)
                 m.means = m.means * np.array([1e-3, 1.0, 1e-2])[:D]
+            if seed % 3 == 2 and C >= 2:
+                # a component that attracts no data at all (far from every sample): occupation below the count threshold
+                mm2 = m.means.copy()
+                mm2[-1] = 500.0
+                m.means = mm2
             m0 = {"w": m.weights.copy(), "mu": m.means.copy(), "v": m.variances.copy()}
             st = ref_estep(x, m0["w"], m0["mu"], m0["v"])
             ll0 = float(np.mean(ref_ll(x, m0["w"], m0["mu"], m0["v"])))
@@ -400,6 +417,14 @@ def mode_history(p):
                 m.variance_thresholds = rs.uniform(1e-3, 1.0, size=(D,) if rs.rand() < 0.5 else (C, D))
             elif op == 5:
                 m = copy.deepcopy(m)
+                # a second machine is given this one's arrays (what the getters return) and is then modified: this one must not follow
+                other = GMMMachine(C)
+                other.variance_thresholds = 1e-9
+                other.means, other.variances, other.weights = m.means, m.variances, m.weights
+                other.variance_thresholds = float(rs.choice([0.5, 1.5]))
+                other.variances = other.variances * 2.0
+                ow = other.weights
+                ow /= ow.sum() * 1.0
             elif op == 6:
                 m = pickle.loads(pickle.dumps(m))
             else:
